@@ -377,7 +377,28 @@ fn meta(sink: &mut Sink, o: &Opts) {
         if rng.chance(1, 4) {
             src = gen::mutate_file(&mut rng, &src);
         }
+        if rng.chance(1, 4) {
+            // records sharing a physical line (the stream is not line-based: a class record ends at its ':')
+            src = gen::join_records(&mut rng, &src, false);
+        }
         meta_event(sink, &src, None);
+    }
+    // the only line-mapped method / the only class / the headers sit on the same physical line as the record
+    // before them: the folds are over RECORDS, not over lines
+    let joined: [&[u8]; 6] = [
+        b"a.B -> a:    1:1:void m() -> b\n",
+        b"a.B -> a:\n# {\"id\":\"sourceFile\",\"fileName\":\"B.kt\"}    1:1:void m() -> b\n",
+        b"a.B -> a:    void m() -> b\n    int f -> c\n",
+        b"a.B -> a:# compiler: R8\n    void m() -> b\n",
+        b"a.B -> a:x.Y -> b:    3:4:void n() -> c\n",
+        b"a.B -> a:# {\"id\":\"sourceFile\",\"fileName\":\"B.kt\"}# min_api: 21\n",
+    ];
+    for x in joined {
+        meta_event(sink, x, None);
+        for y in [&b"x.Y -> b:\n    void n() -> c\n"[..], b"not a record\n"] {
+            meta_event(sink, &[y, x].concat(), Some(y.len()));
+            meta_event(sink, &[x, y].concat(), Some(x.len()));
+        }
     }
     // two blocks that differ in every answer, cut exactly between them: what a sub-mapping says must not
     // depend on what its parent (or sibling) was asked before
@@ -482,6 +503,10 @@ fn retrace(sink: &mut Sink, o: &Opts) {
         if rng.chance(1, 4) {
             let crlf = String::from_utf8_lossy(&m).replace("\r\n", "\n").replace('\r', "\n").replace('\n', "\r\n").into_bytes();
             sessions.push(crlf);
+        }
+        if rng.chance(1, 5) {
+            // records sharing a physical line (class line / sourceFile header followed by the next record)
+            sessions.push(gen::join_records(&mut rng, &m, k % 2 == 0));
         }
         sessions.push(m);
     }
